@@ -22,6 +22,7 @@ import (
 	"crypto/sha256"
 	"encoding/binary"
 	"encoding/hex"
+	"errors"
 	"fmt"
 	"runtime"
 	"runtime/debug"
@@ -141,6 +142,7 @@ type task struct {
 	abortPending bool
 	blockedOn    func() bool
 	stall        bool
+	gid          uint64 // goroutine that runs the task's own code (engine requests are issued from it)
 }
 
 type scope struct {
@@ -234,6 +236,7 @@ func (s *Sched) newTask(scopes []*scope) *task {
 }
 
 func (s *Sched) runTask(t *task, start chan bool, f func(), after func()) {
+	t.gid = goid()
 	<-start
 	defer func() {
 		if r := recover(); r != nil {
@@ -397,6 +400,85 @@ func (s *Sched) parkCur() (aborted bool) {
 	t.park = ch
 	s.yielded <- struct{}{}
 	return <-ch
+}
+
+// ---------------------------------------------------------------------------------------------
+// T6: engine requests. Every request the application sends to the execution layer passes through
+// EngineCall on the goroutine that issues it. In deterministic mode only the task the scheduler is
+// running may do that; a request from any other goroutine - one the application or one of its
+// dependencies started behind the scheduler's back, or one that is still running after the ABCI
+// call that started it has returned - is refused with an error and logged for the harness (serving
+// it would let it race with the scheduled tasks and, since the handler acts "on behalf of the
+// running task", deadlock the simulation).
+
+var (
+	engineGuard  atomic.Bool
+	foreignMu    sync.Mutex
+	foreignCalls []string
+)
+
+var startupGid atomic.Uint64
+
+// StartingNode marks the calling goroutine as the one that starts a node (its engine requests - the
+// client's start-up handshake - are legitimate although no scheduled call is in progress); the
+// returned function ends that.
+func StartingNode() func() {
+	startupGid.Store(goid())
+	return func() { startupGid.Store(0) }
+}
+
+// GuardEngineCalls switches the check on (the harness does so once a node is up: the start-up
+// handshake of the engine client runs outside any scheduled call).
+func GuardEngineCalls(on bool) { engineGuard.Store(on) }
+
+// ForeignEngineCalls returns and clears the log of refused engine requests.
+func ForeignEngineCalls() []string {
+	foreignMu.Lock()
+	defer foreignMu.Unlock()
+	out := foreignCalls
+	foreignCalls = nil
+	return out
+}
+
+func goid() uint64 {
+	var buf [64]byte
+	n := runtime.Stack(buf[:], false)
+	// "goroutine 123 [running]:"
+	var id uint64
+	for _, c := range buf[len("goroutine "):n] {
+		if c < '0' || c > '9' {
+			break
+		}
+		id = id*10 + uint64(c-'0')
+	}
+	return id
+}
+
+// EngineCall wraps one JSON-RPC request of the engine client (pkg/ethrpc).
+func EngineCall(call func() error) error {
+	if mode != Det || !engineGuard.Load() {
+		return call()
+	}
+	g := goid()
+	if startupGid.Load() == g {
+		return call() // the harness is starting a node on this goroutine (engine client handshake)
+	}
+	s := sched()
+	if s != nil && s.cur != nil && s.cur.gid == g {
+		return call()
+	}
+	where := "while no ABCI call was in progress"
+	if s != nil {
+		where = "from a goroutine that is not part of the ABCI call in progress"
+	}
+	stack := string(debug.Stack())
+	if len(stack) > 1800 {
+		stack = stack[:1800]
+	}
+	foreignMu.Lock()
+	foreignCalls = append(foreignCalls, where+"\n"+stack)
+	foreignMu.Unlock()
+	return errors.New("simrt: engine request " + where + " refused")
 }
 
 // ---------------------------------------------------------------------------------------------
